@@ -1,36 +1,57 @@
 #!/usr/bin/env python3
-"""Regenerates vf/shard_files.json (shard -> repository modules executed while it was explored) and
-vf/repo_hashes.json (sha1 of the repository sources) from a C18 thorough run on the current /repo tree.
-usage: tools/gen_shard_files.py [dump.json]   (without argument: runs ./check C18 thorough with VERIF_DUMP_FUNCS set)"""
+"""Regenerates vf/shard_files.json (instruction-space shard -> repository opcode modules reachable from it) and
+vf/repo_hashes.json (sha1 of the repository sources) -- the data of the change-directed shard selection (vf/changed.py).
+
+The map comes from the decoder-path units of C06/C07, which explore EVERY shard in the quick tier and record, per
+shard, the classes the real decoder returns on its paths: evidence/C06.json and evidence/C07.json (units decode/<shard>,
+outcomes = class names).  A class contributes its own module and the modules of its base classes (the abstract
+opcode).  Run after ./check C06 quick and ./check C07 quick passed on the tree to be recorded."""
+import importlib
+import inspect
 import json
 import os
-import subprocess
+import pkgutil
 import sys
-import tempfile
 
 HERE = os.path.dirname(os.path.dirname(os.path.abspath(__file__)))
-sys.path[:0] = [HERE]
+sys.path[:0] = ['/repo', HERE]
+
+
+def class_modules():
+    import armulator.armv6.opcodes.concrete as conc
+    out = {}
+    for mi in pkgutil.walk_packages(conc.__path__, conc.__name__ + '.'):
+        try:
+            mod = importlib.import_module(mi.name)
+        except Exception:
+            continue
+        for name, cls in vars(mod).items():
+            if inspect.isclass(cls) and cls.__module__ == mod.__name__:
+                mods = set()
+                for b in cls.__mro__:
+                    m = getattr(b, '__module__', '')
+                    if m.startswith('armulator.armv6.opcodes.'):
+                        mods.add(m[len('armulator.'):])
+                out[name] = sorted(mods)
+    return out
 
 
 def main():
-    if len(sys.argv) > 1:
-        dump = sys.argv[1]
-    else:
-        dump = os.path.join(tempfile.mkdtemp(prefix='shardfiles-'), 'dump.json')
-        env = dict(os.environ, VERIF_DUMP_FUNCS=dump, VERIF_EVIDENCE_DIR=os.path.dirname(dump))
-        rc = subprocess.call(['./check', 'C18', 'thorough'], cwd=HERE, env=env)
-        if rc != 0:
-            print('C18 thorough exited %d: data files not regenerated' % rc)
-            return 1
-    d = json.load(open(dump))
+    cm = class_modules()
     out = {}
-    for unit, mods in d.items():
-        if not unit.startswith('sweep/'):
-            continue
-        name = unit[len('sweep/'):]
-        if name.endswith(('/v6', '/nosec', '/sctlr', '/usr', '/usr-nosec')):
-            continue
-        out[name] = sorted(m for m in mods if m.startswith('armv6.opcodes'))
+    for pid in ('C06', 'C07'):
+        e = json.load(open(os.path.join(HERE, 'evidence', pid + '.json')))
+        if e.get('violations'):
+            print('%s evidence reports violations: not regenerating' % pid)
+            return 1
+        for u in e['coverage']['units']:
+            if not u['name'].startswith('decode/'):
+                continue
+            shard = u['name'][len('decode/'):]
+            mods = set()
+            for oc in u.get('outcomes', {}):
+                mods.update(cm.get(oc, []))
+            out[shard] = sorted(mods)
     json.dump(out, open(os.path.join(HERE, 'vf', 'shard_files.json'), 'w'), indent=0, sort_keys=True)
     from vf import changed
     json.dump(changed.tree_hashes('/repo'), open(os.path.join(HERE, 'vf', 'repo_hashes.json'), 'w'), indent=0,
